@@ -28,7 +28,7 @@ var (
 		Mode:       ICWS88,
 		CoreSize:   8192,
 		Processes:  8000,
-		Cycles:     10000,
+		Cycles:     100000,
 		ReadLimit:  8000,
 		WriteLimit: 8000,
 		Length:     300,
